@@ -188,6 +188,14 @@ func (rc reservedCase) scenario() *scen.Scenario {
 
 func reservedDomain() []reservedCase {
 	var out []reservedCase
+	// numbered fall-backs that are themselves predeclared (int8, uint16, float32, complex128 …) or taken
+	for _, w := range []string{"int", "uint", "float", "complex", "x"} {
+		for _, n := range []int{8, 9, 16, 17, 32, 33, 64, 65, 128, 129} {
+			for _, prefix := range []string{"", "pkg"} {
+				out = append(out, reservedCase{w, "last", prefix, n})
+			}
+		}
+	}
 	kw := map[string]bool{}
 	for _, k := range oracle.Keywords() {
 		kw[k] = true
